@@ -707,6 +707,22 @@ fn edge_sweep(out: &mut Out, ctx: &mut Ctx, rng: &mut Rng, thorough: bool) {
 			}
 		}
 	}
+	// boxes on coarse tile borders × zoom ranges (the exact bounds of z4/x5/y1 first)
+	let mut boxes: Vec<[f64; 4]> = vec![[-67.5, 79.17133464081945, -45.0, 82.67628497834905]];
+	for _ in 0..(if thorough { 600 } else { 60 }) {
+		boxes.push(coarse_border_box(rng));
+	}
+	for (k, g) in boxes.iter().enumerate() {
+		let (mn, mx) = match k % 4 {
+			0 => (None, None),
+			1 => (Some(rng.range(0, 8) as u8), Some(rng.range(9, 31) as u8)),
+			2 => (None, Some(rng.range(3, 20) as u8)),
+			_ => (Some(rng.range(2, 12) as u8), None),
+		};
+		let o = Opts { min_zoom: mn, max_zoom: mx, bbox: Some(*g), border: if k % 5 == 4 { Some(1) } else { None } };
+		do_pyr(out, &o);
+		out.count("coarse_border_options");
+	}
 	// conversions of corner tiles at the extreme levels under requested boxes that touch the level edges
 	for z in [0u8, 1, 30, 31] {
 		let m = ((1u64 << z) - 1) as u32;
@@ -1235,7 +1251,34 @@ fn lat_of_row(y: f64, z: u8) -> f64 {
 }
 
 /// geographic boxes aimed at the tile set: cutting tiles, on tile borders, points, antimeridian, poles, invalid
+/// bounds of a tile block at a COARSE level `zc`, each edge optionally moved by a hair (δ tiles):
+/// at the finer levels such an edge sits exactly on (or a hair beside) a tile border, where every level
+/// has to apply its own 1e-6 rounding guard
+fn coarse_border_box(rng: &mut Rng) -> [f64; 4] {
+	const DELTAS: [f64; 11] = [0.0, 1e-9, -1e-9, 1e-8, -1e-8, 1e-7, -1e-7, 1e-6, -1e-6, 1e-5, -1e-5];
+	let zc = rng.range(1, 10) as u8;
+	let n = 1u64 << zc;
+	let (x0, y0) = (rng.below(n), rng.below(n));
+	let (x1, y1) = ((x0 + 1 + rng.below(2)).min(n), (y0 + 1 + rng.below(2)).min(n));
+	let d = |rng: &mut Rng| if rng.chance(1, 2) { 0.0 } else { *rng.pick(&DELTAS) };
+	let nf = n as f64;
+	let lon = |x: f64| (x / nf * 360.0 - 180.0).clamp(-180.0, 180.0);
+	let w = lon(x0 as f64 + d(rng));
+	let e = lon(x1 as f64 + d(rng));
+	let no = lat_of_row((y0 as f64 + d(rng)).clamp(0.0, nf), zc);
+	let so = lat_of_row((y1 as f64 + d(rng)).clamp(0.0, nf), zc);
+	match rng.below(8) {
+		0 => [w, no, w, no],         // degenerate point on a tile corner
+		1 => [w, so.min(no), w, no], // zero-width segment on a column border
+		2 => [w.min(e), no, e, no],  // zero-height segment on a row border
+		_ => [w.min(e), so.min(no), e.max(w), no.max(so)],
+	}
+}
+
 fn gen_geo(rng: &mut Rng, tiles: &[C]) -> [f64; 4] {
+	if rng.chance(1, 4) {
+		return coarse_border_box(rng);
+	}
 	let t = if tiles.is_empty() { (0, 0, 0) } else { *rng.pick(tiles) };
 	let z = t.2.min(24);
 	let n = (1u64 << z) as f64;
@@ -1400,6 +1443,45 @@ fn do_pyr(out: &mut Out, o: &Opts) {
 				if !inside(must, &got) || !inside(&got, may) {
 					e = Some((format!("level {z}: requested box {got:?} is not between the reference must-box {must:?} and may-box {may:?}"), "options_geo"));
 					break;
+				}
+			}
+			if let (Some(g), None) = (o.bbox, &e) {
+				let gb = GeoBBox::from(&g);
+				for z in 0..32u8 {
+					let got = norm(&p.level_bbox[z as usize]);
+					let excluded = o.min_zoom.is_some_and(|a| z < a) || o.max_zoom.is_some_and(|a| z > a);
+					// (a) the pyramid's level box is the level's own projection `TileBBox::from_geo(z, bbox)`
+					//     (+ border) – every level is projected with its own rounding guard
+					let want: B = if excluded {
+						None
+					} else {
+						match TileBBox::from_geo(z, &gb) {
+							Ok(mut b) => {
+								if let Some(bd) = o.border {
+									if bd < (1 << 31) + 1 {
+										b.add_border(bd, bd, bd, bd);
+									}
+								}
+								norm(&b)
+							}
+							Err(_) => None,
+						}
+					};
+					if got != want && o.border.map_or(true, |bd| bd <= 1 << 31) {
+						e = Some((format!("level {z}: the requested pyramid has {got:?}, the level's own projection TileBBox::from_geo({z}, bbox){} is {want:?}", if o.border.is_some() { " + border" } else { "" }), "options_vs_level_projection"));
+						break;
+					}
+					// (b) a degenerate box (point / segment) selects exactly one tile column / row per level,
+					//     also when it lies exactly on a tile border
+					if o.border.map_or(true, |bd| bd == 0) {
+						if let Some((x0, y0, x1, y1)) = got {
+							let wide = g[0] == g[2] && x1 != x0;
+							if wide || (g[1] == g[3] && y1 != y0) {
+								e = Some((format!("level {z}: a zero-{} box selects {got:?} - more than one tile {}", if wide { "width" } else { "height" }, if wide { "column" } else { "row" }), "options_degenerate"));
+								break;
+							}
+						}
+					}
 				}
 			}
 		}
@@ -1635,6 +1717,9 @@ fn binary_cases(out: &mut Out, ctx: &mut Ctx, rng: &mut Rng, n: usize) {
 		let (code, stderr) = run_bin(&bin, &a);
 		let panicked = stderr.contains("panicked at");
 		let t = catch(|| get_bbox_pyramid_t(&o));
+		// the same options through the library oracles (per-level projection, degenerate boxes, reference
+		// selection): binary = library (below) and library = oracle (here) tie the CLI to the oracle
+		do_pyr(out, &o);
 		let line = format!("{} # versatiles {}", o.case(), a[..a.len() - 2].join(" "));
 		// the library conversion with the same parameters
 		let lib = |req: Option<TileBBoxPyramid>| -> Result<anyhow::Result<(BTreeMap<C, String>, TileCompression, bool)>, String> {
